@@ -653,7 +653,9 @@ theorem sized_of (p : GProg) (hp : DefaultsClosed p) (N K : Nat)
           obtain ⟨f, hf⟩ := here.pairs m kvs kt vt (by omega)
           rcases hf with h | ⟨σ1, kvs', h, hpost⟩
           · exact ⟨f + 1, Or.inl (by simp only [linkVal, hk]; simp only at h; rw [h])⟩
-          · exact ⟨f + 1, Or.inr ⟨σ1, .map kvs', by simp only [linkVal, hk]; simp only at h; rw [h], hpost⟩⟩
+          · rcases guardDup_cases p σ1 (kvs'.map (·.1)) (.map kvs') with hg | hg
+            · exact ⟨f + 1, Or.inl (by simp only [linkVal, hk]; simp only at h; rw [h]; exact hg)⟩
+            · exact ⟨f + 1, Or.inr ⟨σ1, .map kvs', by simp only [linkVal, hk]; simp only at h; rw [h]; exact hg, hpost⟩⟩
         | _ => exact ⟨1, Or.inl (by simp only [linkVal, hk])⟩
       | struct fs =>
         simp only [gsz] at hm
@@ -670,7 +672,9 @@ theorem sized_of (p : GProg) (hp : DefaultsClosed p) (N K : Nat)
           obtain ⟨f, hf⟩ := here.vals m xs e hsz
           rcases hf with h | ⟨σ1, xs', h, hpost⟩
           · exact ⟨f + 1, Or.inl (by simp only [linkVal, hk]; simp only at h; rw [h])⟩
-          · exact ⟨f + 1, Or.inr ⟨σ1, .set xs', by simp only [linkVal, hk]; simp only at h; rw [h], hpost⟩⟩
+          · rcases guardDup_cases p σ1 xs' (.set xs') with hg | hg
+            · exact ⟨f + 1, Or.inl (by simp only [linkVal, hk]; simp only at h; rw [h]; exact hg)⟩
+            · exact ⟨f + 1, Or.inr ⟨σ1, .set xs', by simp only [linkVal, hk]; simp only at h; rw [h]; exact hg, hpost⟩⟩
         | list e =>
           obtain ⟨f, hf⟩ := here.vals m xs e hsz
           rcases hf with h | ⟨σ1, xs', h, hpost⟩
@@ -684,7 +688,9 @@ theorem sized_of (p : GProg) (hp : DefaultsClosed p) (N K : Nat)
           obtain ⟨f, hf⟩ := here.vals m xs e hsz
           rcases hf with h | ⟨σ1, xs', h, hpost⟩
           · exact ⟨f + 1, Or.inl (by simp only [linkVal, hk]; simp only at h; rw [h])⟩
-          · exact ⟨f + 1, Or.inr ⟨σ1, .set xs', by simp only [linkVal, hk]; simp only at h; rw [h], hpost⟩⟩
+          · rcases guardDup_cases p σ1 xs' (.set xs') with hg | hg
+            · exact ⟨f + 1, Or.inl (by simp only [linkVal, hk]; simp only at h; rw [h]; exact hg)⟩
+            · exact ⟨f + 1, Or.inr ⟨σ1, .set xs', by simp only [linkVal, hk]; simp only at h; rw [h]; exact hg, hpost⟩⟩
         | _ => exact ⟨1, Or.inl (by simp only [linkVal, hk])⟩
       | cref cm cn =>
         cases hl : lookupConst p cm cn with
